@@ -10,6 +10,21 @@ Theorem C02_apply_lossless : forall n m,
 Proof. exact apply_lossless. Qed.
 Print Assumptions C02_apply_lossless.
 
+(* File level (BaseFileSegment.root_parse): whatever the root grammar returns -- nothing, a partial match, a complete one -- provided a
+   truthy result is certified, starts at the first code token and stays before the trimmed end: the file node's token leaves are
+   exactly tokens 0..n-1 in order; what the grammar did not claim sits inside an unparsable node, nothing is discarded. *)
+Theorem C02_root_parse_lossless : forall n is_code m t,
+  start_idx n is_code <= end_idx n is_code -> end_idx n is_code <= n ->
+  (truthy m = true -> wf_b n m = true /\ mstart m = start_idx n is_code /\ mstop m <= end_idx n is_code) ->
+  root_parse n is_code m = Ok t -> tokens_of t = seq 0 n.
+Proof. exact root_parse_lossless. Qed.
+Print Assumptions C02_root_parse_lossless.
+
+Example C02_root_parse_example :
+  root_parse 6 (fun i => negb (i =? 0) && negb (i =? 3) && negb (i =? 5)) (MR 1 3 (Some 7) [] [])
+  = Ok (Node 0 [Tok 0; Node 7 [Tok 1; Tok 2]; Tok 3; Node 1 [Tok 4]; Tok 5]).
+Proof. reflexivity. Qed.
+
 (* the hypothesis is satisfiable by a nested result with inserts, and the checker rejects overlapping children *)
 Example C02_wf_example : wf_b 6 (MR 1 5 (Some 7) [(1, 0); (5, 1)] [MR 1 2 (Some 3) [] []; MR 3 5 None [(4, 0)] []]) = true.
 Proof. reflexivity. Qed.
